@@ -4,8 +4,10 @@ KeysDef == {"p", "d", "d/x", "d/y"}
 LazyDef == {"d"}
 KidsDef == [k \in LazyDef |-> {"d/x", "d/y"}]
 E(m, h, l) == [meta |-> m, hash |-> h, loaded |-> l]
-EntriesDef == {E("f", "h", "N"), E("none", "h", "N"), E("empty", "h", "N"), E("none", "none", "N"),
+\* ("fr" = the file metadata "f" plus the name of the remote it came from - a field that takes no part in the equality
+\* of metadata objects but is serialised)
+EntriesDef == {E("f", "h", "N"), E("fr", "h", "N"), E("none", "h", "N"), E("empty", "h", "N"), E("none", "none", "N"),
                E("d", "dirhash", "N"), E("d", "dirhash", "F"), E("d", "none", "T")}
-EntriesQuick == {E("f", "h", "N"), E("empty", "h", "N"), E("d", "dirhash", "N"), E("d", "none", "T")}
+EntriesQuick == {E("f", "h", "N"), E("fr", "h", "N"), E("empty", "h", "N"), E("d", "dirhash", "N"), E("d", "none", "T")}
 KidDef == E("k", "hk", "N")
 =============================================================================
